@@ -288,6 +288,85 @@ pub fn nests_of_depth(d: usize) -> Vec<Nest> {
     out
 }
 
+/// Depth-3 nests in the quick tier: a loop around two nested try-like constructs (every combination,
+/// both fillers) with the leaves that leave or cross them - the shape in which break, continue and
+/// return pass through two finally blocks with locals declared at every level.
+pub fn loop_try_try_nests() -> Vec<Nest> {
+    let loops = [Cons::While1, Cons::While2, Cons::For];
+    let trys = [Cons::TcBody, Cons::TcCatch, Cons::TfBody, Cons::TfFinally, Cons::TfFinallyAfterThrow, Cons::TcfBody, Cons::TcfCatch, Cons::TcfFinally, Cons::TrfFinally, Cons::TrcfFinally];
+    let leaves = [Leaf::Fall, Leaf::ThrowStr, Leaf::IndexErr, Leaf::Deep(2), Leaf::Return, Leaf::Break, Leaf::Continue, Leaf::CallRif];
+    let fillers = |c: Cons| -> &'static [u8] { if matches!(c, Cons::Block | Cons::TcBody | Cons::TcCatch) { &[0] } else { &[0, 1] } };
+    let mut out = Vec::new();
+    for l in loops {
+        for &fl in fillers(l) {
+            for a in trys {
+                for &fa in fillers(a) {
+                    for b in trys {
+                        for &fb in fillers(b) {
+                            for leaf in leaves {
+                                let n = Nest { cons: vec![(l, fl), (a, fa), (b, fb)], leaf };
+                                if n.valid() {
+                                    out.push(n);
+                                }
+                            }
+                        }
+                    }
+                }
+            }
+        }
+    }
+    out
+}
+
+/// A try statement in a loop whose finally block is left by continue / break on the first pass while an
+/// outcome (return, exception, exception from the catch block) is waiting, and which is entered again and
+/// completes normally on the later passes; then an unrelated try statement.  The abandoned outcome
+/// must not come back.
+pub fn reentered_after_abrupt_finally_exit() -> Vec<Case> {
+    let first = |then: Vec<Stmt>| st(StmtKind::If(bin(BinOp::Eq, var("i"), num(1.0)), then, None));
+    let lab = |t: &str| print_stmt(Expr::Interp(vec![Part::Lit(format!("{} ", t)), Part::Expr(var("i"))]));
+    let mut out = Vec::new();
+    for pending in 0..5 {
+        for exit in 0..3 {
+            for with_catch in [false, true] {
+                // pending outcome of the first pass
+                let raise: Vec<Stmt> = match pending {
+                    0 => vec![st(StmtKind::Return(Some(s("abandoned return"))))],
+                    1 => vec![st(StmtKind::Throw(s("abandoned exception")))],
+                    2 => vec![expr_stmt(index(Expr::VecLit(vec![]), num(0.0)))],
+                    3 => vec![expr_stmt(call(var("thr2"), vec![]))],
+                    _ => vec![print_stmt(call(var("rtt"), vec![])), st(StmtKind::Throw(s("after rtt")))],
+                };
+                let body = vec![first(raise), lab("body")];
+                // with a catch block the first pass's exception is caught and the catch block raises anew
+                let catch = if with_catch { Some(("e".to_string(), vec![lab("caught"), first(vec![st(StmtKind::Throw(s("from catch")))])])) } else { None };
+                let leave = match exit {
+                    0 => st(StmtKind::Continue),
+                    _ => st(StmtKind::Break),
+                };
+                let fin = vec![lab("finally"), first(vec![leave]), lab("finally end")];
+                let try_stmt = st(StmtKind::Try(body, catch, Some(fin)));
+                let inner_loop = st(StmtKind::While(bin(BinOp::Lt, var("i"), num(3.0)), vec![expr_stmt(assign("i", bin(BinOp::Add, var("i"), num(1.0)))), var_stmt("loc", s("loop local")), try_stmt, lab("after try"), print_stmt(var("loc"))]));
+                // exit 2: break, and an outer loop runs the inner loop again (i keeps counting)
+                let loops = if exit == 2 { st(StmtKind::For("round".into(), Expr::VecLit(vec![num(1.0), num(2.0)]), vec![print_stmt(var("round")), inner_loop])) } else { inner_loop };
+                let main_body = vec![
+                    var_stmt("i", num(0.0)),
+                    loops,
+                    st(StmtKind::Try(vec![print_stmt(s("later try"))], None, Some(vec![print_stmt(s("later finally"))]))),
+                    st(StmtKind::Try(vec![print_stmt(s("later try 2"))], Some(("e".into(), vec![print_stmt(s("never"))])), None)),
+                    st(StmtKind::Return(Some(s("end of main")))),
+                ];
+                let mut prog = prelude();
+                prog.push(fn_stmt(func("main_", &[], main_body)));
+                prog.push(st(StmtKind::Try(vec![print_stmt(call(var("main_"), vec![]))], Some(("e".into(), vec![print_stmt(var("e"))])), None)));
+                prog.push(p("after main"));
+                out.push(Case::new("try_reentered_after_abrupt_finally_exit", prog));
+            }
+        }
+    }
+    out
+}
+
 /// The sublanguage on which no listed finding can be triggered (the whole alphabet at present).
 fn trigger_free(m: &ModelRun) -> bool {
     m.events.is_empty()
@@ -327,7 +406,12 @@ pub fn cases_for_c04(thorough: bool) -> Vec<Case> {
         for n in nests_of_depth(3) {
             v.push(Case::new("nest_depth3", program(&[n])));
         }
+    } else {
+        for n in loop_try_try_nests() {
+            v.push(Case::new("nest_depth3_loop_try_try", program(&[n])));
+        }
     }
+    v.extend(reentered_after_abrupt_finally_exit());
     v
 }
 
@@ -352,6 +436,10 @@ pub fn run(ctx: &Ctx) -> Report {
             b.into_iter().map(move |y| mk("pair_depth1_depth1", vec![x.clone(), y]))
         })));
     }
+    cases.push(Box::new(reentered_after_abrupt_finally_exit().into_iter()));
+    if !thorough {
+        cases.push(Box::new(loop_try_try_nests().into_iter().map(move |n| mk("nest_depth3_loop_try_try", vec![n]))));
+    }
     if thorough {
         let d3 = nests_of_depth(3);
         cases.push(Box::new(d3.into_iter().map(move |n| mk("nest_depth3", vec![n]))));
@@ -374,7 +462,7 @@ pub fn run(ctx: &Ctx) -> Report {
     mcheck::fill_report(
         &mut report,
         &stats,
-        "every nest of the constructs {block, try/catch, try/finally, try/catch/finally (focus in body, catch or finally), while x1/x2, for, function/method/closure call} x 2 fillers up to the depth bound, with every leaf action {fall through, throw of 4 value kinds, 6 failing built-ins (one per error class), callee throwing at depth 1-3, return, break, continue}, and every sequential pair of nests, run on the real interpreter and compared with M-eval's block trace and outcome. non-trivial = an exception reaches a handler, a finally block or the top level.",
+        "every nest of the constructs {block, try/catch, try/finally, try/catch/finally (focus in body, catch or finally), while x1/x2, for, function/method/closure call} x 2 fillers up to the depth bound, with every leaf action {fall through, throw of 4 value kinds, 6 failing built-ins (one per error class), callee throwing at depth 1-3, return, break, continue}, and every sequential pair of nests (quick tier: depth 2, pairs of depth-1 nests, and the depth-3 nests that put a loop around two try-like constructs), plus 30 programs in which a try statement inside a loop is entered again after its finally block was left by continue / break with an outcome waiting, run on the real interpreter and compared with M-eval's block trace and outcome. non-trivial = an exception reaches a handler, a finally block or the top level.",
         json!({"nest_depth": if thorough { 3 } else { 2 }, "pairs": if thorough { "depth1 x depth2" } else { "depth1 x depth1" }, "constructs": CONS.len(), "leaves": LEAVES.len()}),
     );
     // trigger-free population reported separately
